@@ -48,7 +48,11 @@ def run(chk):
         "exception; (b) A1 tagged-union agreement: under every case/compare of an inode's type only the union members of "
         "that type are accessed (217 accesses); (c) K6-alloca: no input-sized stack allocation; (d) K6-index: stores "
         "through caller-provided tables indexed by a growing counter are bounded; (e) K2-column: every non-uniform column "
-        "of a constant keyword/handler table is read by some code.")
+        "of a constant keyword/handler table is read by some code; (f) K14-cmp: every comparator / equality function registered "
+        "with qsort, the rbtree or the hash table (hard-link (device, inode) key, directory cache, xattr block dedup, string "
+        "table) is evaluated over all 3^k orderings of its key parts: reflexive, antisymmetric, every part relevant, "
+        "lexicographic -- distinct keys are never merged; (g) K2-exact: length-limited comparisons of node names check the "
+        "terminator.")
     chk.assumptions = ["hard-link grouping, xattr round trip and data contents are not decided"]
     prog = load_program("all")
     run_k7(chk, prog, "K7")
@@ -56,8 +60,18 @@ def run(chk):
     rule_alloca(chk, prog)
     run_k6idx(chk, prog, "K6-index")
     run_deadcol(chk, prog, "K2-column")
+    # keys of lookup / dedup structures discriminate: distinct inodes, xattr blocks, names are never merged
+    from .c11 import rule_exact_lookup
+    from ..cmpcheck import check_comparator, registered_comparators
+    rule_exact_lookup(chk, prog)
+    for (t, li, ri, eq) in registered_comparators(prog):
+        if t.unit.src.startswith("bin/rdsquashfs/"):
+            continue        # unpack order of rdsquashfs: performance only
+        check_comparator(chk, prog, t, li, ri, "K14-cmp", equals=eq)
     chk.floor("K7", 45)
     chk.floor("A1", 150)
     chk.floor("K6-alloca", 2)
     chk.floor("K6-index", 3)
     chk.floor("K2-column", 30)
+    chk.floor("K2-exact", 1)
+    chk.floor("K14-cmp", 5)
